@@ -181,6 +181,28 @@ func evalAggregate(x *X, name string, c *Ctx) val.V {
 		}
 		kept = append(kept, r)
 	}
+	if x.Distinct {
+		// one argument; rows whose argument repeats an earlier value are left out
+		// (NULLs are ignored by the aggregate anyway)
+		if len(x.Kids) != 1 || x.Kids[0].K == "star" {
+			return val.ERR
+		}
+		seen := map[string]bool{}
+		var uniq []*Env
+		for _, r := range kept {
+			v := Eval(x.Kids[0], &Ctx{Row: r, Params: c.Params})
+			if v.K == val.Err {
+				return val.ERR
+			}
+			k := v.String()
+			if v.K != val.Null && seen[k] {
+				continue
+			}
+			seen[k] = true
+			uniq = append(uniq, r)
+		}
+		kept = uniq
+	}
 	switch name {
 	case "count":
 		if len(x.Kids) == 0 || (len(x.Kids) == 1 && x.Kids[0].K == "star") {
